@@ -15,9 +15,14 @@ Modelling decisions (from notes/sketches/sse_*.lean.txt):
 * JSON decoding is a parameter `decode : Bytes → Option M` (Go: `jsonrpc.DecodeMessage`, trusted);
 * one `step` of the loop = one HTTP attempt of `connectSSE` together with everything `handleSSE`
   does until the next attempt (these run on one goroutine; nothing else touches their variables).
-Not modelled: cancellation of the call's context / `Close` of the connection while a stream is
-processed (the `ctx.Err() != nil` and `<-c.done` arms), Unicode white space in `TrimSpace`
-(ASCII only), the overflow of `time.Duration(n) * time.Millisecond`.
+* a failed attempt carries what its error answers to the tests a retry loop could apply to it (`TErr`);
+  the tests under which `connectSSE` leaves the loop on the ERROR are regenerated from the code
+  (`stopOnIsCanceled` … — none as built); the end of the CALLER's context while the loop is reconnecting
+  is an input of its own (`Attempt.ctxEnded`: `connectSSE` returns `ctx.Err()`, `handleSSE` returns
+  without failing the connection, the call completes with the context's error in the layer above).
+Not modelled: the end of the caller's context while a BODY is processed and `Close` of the connection
+(the `ctx.Err() != nil` arm of `processStream` and the `<-c.done` arms), Unicode white space in
+`TrimSpace` (ASCII only), the overflow of `time.Duration(n) * time.Millisecond`.
 `dropUnterminated = false` and `keepCursor = false` describe the unrepaired code (defects F5 and
 "cursor lost"); they are kept for the counter-example theorems.
 Core Lean only (linked into the driver).
@@ -326,6 +331,7 @@ inductive Ended where
   | synthetic        -- unresumable: the synthetic error response reached the session
   | failed (f : Fail)  -- `c.fail(err)`: the connection is broken, every pending call fails
   | streaming        -- the body stays open
+  | cancelled        -- the caller's context ended while reconnecting: the loop stops, the connection is not failed
 deriving DecidableEq, Repr
 
 inductive Phase where
@@ -354,9 +360,29 @@ def afterBody {M} (cfg : Cfg M) (prev : Bytes) (retries : Nat) (b : BodyOut M) :
     else if retries + 1 > cfg.maxRetries then .ended (.failed .exceeded)
     else .reconnecting prev (retries + 1) b.lastID b.hint 1   -- (maxRetries ≥ 1 here)
 
+/-- What the error of a failed `client.Do` answers to the tests a retry loop could apply to it.  Every
+timeout of `net` and `net/http` (dial "i/o timeout", "timeout awaiting response headers",
+`http.Client.Timeout`) answers `errors.Is(err, context.DeadlineExceeded)` and `Timeout()`, an error of a
+request whose OWN context (not the caller's) was cancelled answers `errors.Is(err, context.Canceled)` —
+all while the caller's context is live. -/
+structure TErr where
+  isCanceled : Bool := false
+  isDeadline : Bool := false
+  isTimeout : Bool := false
+deriving DecidableEq, Repr
+
+/-- does the branch taken when `client.Do` fails leave the retry loop on this error? (regenerated tests) -/
+def errStops (e : TErr) : Bool :=
+  (stopOnIsCanceled && e.isCanceled) || (stopOnIsDeadline && e.isDeadline) || (stopOnTimeout && e.isTimeout) ||
+    stopOnOtherTest
+
 /-- one HTTP attempt of `connectSSE` -/
 inductive Attempt where
-  | terr                                  -- `client.Do` failed
+  /-- `client.Do` failed with an error of kind `e`; the caller's context is live -/
+  | terr (e : TErr)
+  /-- the caller's context ended: while the request was in flight (`sent`: `client.Do` fails with the
+  context's error) or during the wait before it (no request goes out) -/
+  | ctxEnded (sent : Bool)
   | resp (code : Nat) (body : Bytes → ScanOut)   -- a response; the body may depend on the Last-Event-ID sent
 
 def isTransient (code : Nat) : Bool := transientStatuses.contains code
@@ -376,9 +402,14 @@ def step {M} (cfg : Cfg M) (r : Run M) (a : Attempt) : Run M :=
   | .reconnecting prev retries lastID hint attempt =>
     let hs := r.headers ++ [lastID]
     match a with
-    | .terr =>
-      if attempt + 1 > cfg.maxRetries then { r with phase := .ended (.failed .connect), headers := hs }
+    | .terr e =>
+      -- an early exit on the error (none as built): `handleSSE` finds the caller's context live and fails the connection
+      if errStops e then { r with phase := .ended (.failed .connect), headers := hs }
+      else if attempt + 1 > cfg.maxRetries then { r with phase := .ended (.failed .connect), headers := hs }
       else { r with phase := .reconnecting prev retries lastID hint (attempt + 1), headers := hs }
+    | .ctxEnded sent =>
+      -- `select { case <-ctx.Done(): return nil, ctx.Err() }`; `handleSSE`: `ctx.Err() != nil`, plain return
+      { r with phase := .ended .cancelled, headers := if sent then hs else r.headers }
     | .resp code body =>
       match checkResponse code with
       | some f => { r with phase := .ended (.failed f), headers := hs }
